@@ -6,8 +6,10 @@ import (
 	"strings"
 	"testing"
 
+	"github.com/goplus/gogen"
 	"pgregory.net/rapid"
 
+	"verif/h/drive"
 	"verif/h/gen"
 	"verif/h/hx"
 	"verif/h/oracle"
@@ -63,6 +65,14 @@ func TestC07(t *testing.T) {
 		return sig, msg
 	}
 	if r.Replay != "" {
+		var h c07History
+		if err := r.ReplayInput(&h); err == nil && len(h.Calls) > 0 {
+			r.Eval()
+			if sig, msg, _ := c07HistoryEval(&h); sig != "" {
+				r.Report(&h, sig, "%s", msg)
+			}
+			return
+		}
 		var c progCase
 		if err := r.ReplayInput(&c); err != nil {
 			t.Fatal(err)
@@ -76,6 +86,29 @@ func TestC07(t *testing.T) {
 	if r.Shard == 0 {
 		replayFindings(r, eval)
 	}
+	// Histories within one package: a rejected call (CallWithEx returns the error) must not change what
+	// later calls in the same package infer.
+	r.Check(t, "calls-after-rejected-calls", r.N(300, 20000), func(t *rapid.T) {
+		n := rapid.IntRange(2, 5).Draw(t, "ncalls")
+		h := &c07History{}
+		for i := 0; i < n; i++ {
+			h.Calls = append(h.Calls, rapid.IntRange(0, len(c07LibCalls)-1).Draw(t, "call"))
+		}
+		sig, msg, rejected := c07HistoryEval(h)
+		r.Eval()
+		r.Class("history-in-one-package")
+		if sig != "" {
+			if f := r.MatchKnown(sig); f != nil {
+				r.Known(f)
+				return
+			}
+			r.Fail(t, h, sig, "%s", msg)
+		}
+		if rejected > 0 {
+			r.Class("valid-call-after-rejected-call")
+			r.Nontrivial(fmt.Sprint("history", h.Calls))
+		}
+	})
 	r.Check(t, "generic-calls", r.N(6000, 200000), func(t *rapid.T) {
 		src, feats := gen.GenericProgram(t)
 		fs := append([]string{}, feats...)
@@ -113,4 +146,100 @@ func dedupStrings(xs []string) []string {
 		}
 	}
 	return out
+}
+
+// ---- histories of generic calls in one package ----------------------------------------------------
+
+const c07LibPath = "example.com/verif/gl"
+
+const c07LibSrc = `package gl
+
+var (
+	I32 int32
+	I64 int64
+	S   string
+	M   map[string]bool
+	XS  []int
+	F   func(int) string
+)
+
+func Pair[T any](a, b T) T                     { return a }
+func Keys[K comparable, V any](m map[K]V) []K  { return nil }
+func Id[T any](x T) T                          { return x }
+func Sum[T ~int | ~float64](xs ...T) T         { var z T; return z }
+func Apply[A, B any](x A, f func(A) B) B       { var z B; return z }
+`
+
+func init() { oracle.RegisterSource(c07LibPath, c07LibSrc) }
+
+// c07LibCalls: calls of the library's generic functions, some valid and some not (go/types decides)
+var c07LibCalls = []struct {
+	fn   string
+	args []string
+}{
+	{"Pair", []string{"I32", "I64"}}, {"Pair", []string{"I64", "I64"}}, {"Pair", []string{"S", "I32"}}, {"Pair", []string{"S", "S"}},
+	{"Keys", []string{"M"}}, {"Keys", []string{"XS"}}, {"Id", []string{"S"}}, {"Id", []string{"M"}}, {"Sum", []string{"S"}}, {"Sum", []string{"I64"}},
+	{"Apply", []string{"I64", "F"}}, {"Apply", []string{"I32", "S"}}, {"Apply", []string{"I64", "Id"}},
+}
+
+type c07History struct {
+	Calls []int `json:"calls"` // indices into c07LibCalls, issued in this order in one function body
+}
+
+// c07HistoryEval issues the calls one after another in one package through CallWithEx. Oracle: each
+// call alone, checked by go/types: same verdict, and for accepted calls the same result type.
+func c07HistoryEval(h *c07History) (sig, msg string, rejectedBeforeValid int) {
+	var perr any
+	rejected := 0
+	func() {
+		defer func() { perr = recover() }()
+		pkg := gogen.NewPackage("", "main", &gogen.Config{Importer: oracle.Importer()})
+		lib := pkg.Import(c07LibPath)
+		cb := pkg.NewFunc(nil, "f", nil, nil, false).BodyStart(pkg)
+		for step, k := range h.Calls {
+			c := c07LibCalls[k%len(c07LibCalls)]
+			var as []string
+			for _, a := range c.args {
+				as = append(as, "gl."+a)
+			}
+			expr := "gl." + c.fn + "(" + strings.Join(as, ", ") + ")"
+			chk := oracle.CheckSources("main", map[string]string{"c.go": "package main\n\nimport \"" + c07LibPath + "\"\n\nvar r = " + expr + "\n"}, oracle.Importer())
+			base := cb.InternalStack().Len()
+			cb.Val(lib.Ref(c.fn))
+			for _, a := range c.args {
+				cb.Val(lib.Ref(a))
+			}
+			err := cb.CallWithEx(len(c.args), 0, 0)
+			switch {
+			case chk.OK() && err != nil:
+				sig = fmt.Sprintf("history-verdict|go=true|gogen=false|after-rejected=%v", rejected > 0)
+				msg = fmt.Sprintf("step %d: %s is valid (go/types) but rejected after %d rejected call(s) in the same package: %v\nhistory: %v", step, expr, rejected, err, h.Calls)
+				return
+			case !chk.OK() && err == nil:
+				sig = fmt.Sprintf("history-verdict|go=false(%s)|gogen=true", oracle.MsgClass(chk.ErrText(1)))
+				msg = fmt.Sprintf("step %d: %s is rejected by go/types (%s) but accepted by the builder\nhistory: %v", step, expr, chk.ErrText(1), h.Calls)
+				return
+			case err != nil:
+				rejected++
+			default:
+				if rejected > 0 {
+					rejectedBeforeValid++
+				}
+				want := oracle.TypeKey(chk.Pkg.Scope().Lookup("r").Type())
+				if got := oracle.TypeKey(cb.InternalStack().Get(-1).Type); got != want {
+					sig = fmt.Sprintf("history-result-type|after-rejected=%v", rejected > 0)
+					msg = fmt.Sprintf("step %d: %s has type %s, the builder reports %s\nhistory: %v", step, expr, want, got, h.Calls)
+					return
+				}
+			}
+			cb.InternalStack().SetLen(base) // every call is its own statement; a rejected call leaves its operands
+		}
+	}()
+	if perr != nil && sig == "" {
+		if k := drive.ClassifyPanic(perr); k == "runtime" || k == "other" {
+			return "history-fault", fmt.Sprintf("run-time fault: %v\nhistory: %v", perr, h.Calls), rejectedBeforeValid
+		}
+		return "history-panic|" + normMsg(fmt.Sprint(perr)), fmt.Sprintf("CallWithEx panicked instead of returning the error: %v\nhistory: %v", perr, h.Calls), rejectedBeforeValid
+	}
+	return sig, msg, rejectedBeforeValid
 }
